@@ -5,7 +5,7 @@
    transcript - ledger without repetition, no destroyed uid observed - are made
    by lib/svlib/unwind_check.py without any use of the model.)
    Definitions only. *)
-From SV Require Export Unwind.UWorld.
+From SV Require Export Unwind.UWorld Unwind.ChangeSet.
 
 Fixpoint unl_eqb (a b : list N) : bool :=
   match a, b with
@@ -79,5 +79,7 @@ Fixpoint oracles_of (t : list (list Z)) (w : uworld) (os : list uop) : list orac
 
 (* the model's transcript along the observed one *)
 Definition utr_guided (h : list Z) (t : list (list Z)) : list (list Z) :=
-  let os := decode_uhistory h in
-  utr (oracles_of t uw_init os) uw_init os.
+  if is_cs_history h then cs_transcript h
+  else
+    let os := decode_uhistory h in
+    utr (oracles_of t uw_init os) uw_init os.
